@@ -48,6 +48,7 @@ class Models(object):
     def __init__(self):
         self.table = {}
         self.opaque = {}
+        self._find_memo = {}
         self._register()
 
     # ------------------------------------------------------------------ helpers on values
@@ -250,6 +251,8 @@ class Models(object):
         """mode: iter (pairs for maps) | keys | values"""
         if v.op in ITER_OPS:
             return v
+        if v.op == "collect" and v.a[0].op == "eiter":
+            return v.a[0]
         if v.op == "seq":
             args = []
             for x in v.a:
@@ -302,7 +305,7 @@ class Models(object):
                     continue
                 args.extend([g, y])
             return mk("eiter", *args)
-        l, _ch = ev.reify(f, 1)
+        l, _ch = ev.reify(f, 1, elem_of=it)
         if l is _LAM_ID:
             return it
         return mk("map", it, l)
@@ -319,7 +322,7 @@ class Models(object):
                     continue
                 args.extend([g2, x])
             return mk("eiter", *args)
-        l, _ch = ev.reify(f, 1)
+        l, _ch = ev.reify(f, 1, elem_of=it)
         return mk("filter", it, l)
 
     def it_filter_map(self, ev, it, f):
@@ -334,7 +337,7 @@ class Models(object):
                     continue
                 args.extend([g2, opt_val(o)])
             return mk("eiter", *args)
-        l, _ch = ev.reify(f, 1)
+        l, _ch = ev.reify(f, 1, elem_of=it)
         return mk("filter_map", it, l)
 
     def it_zip(self, ev, a, b):
@@ -365,7 +368,7 @@ class Models(object):
                     continue
                 parts.append(tm.and_(g, c))
             return tm.or_(*parts)
-        l, _ = ev.reify(f, 1)
+        l, _ = ev.reify(f, 1, elem_of=it)
         return self.any_term(it, l)
 
     def any_term(self, it, l):
@@ -380,7 +383,7 @@ class Models(object):
                     continue
                 parts.append(tm.or_(tm.not_(g), c))
             return tm.and_(*parts)
-        l, _ = ev.reify(f, 1)
+        l, _ = ev.reify(f, 1, elem_of=it)
         return tm.all_(it, l)
 
     def it_find(self, ev, it, f):
@@ -392,7 +395,7 @@ class Models(object):
                     continue
                 r = tm.ite(tm.and_(g, c), tm.some(x), r)
             return r
-        l, _ = ev.reify(f, 1)
+        l, _ = ev.reify(f, 1, elem_of=it)
         if it.op == "iter" and it.a[0].op in ("push", "ite"):
             return self.find_in(it.a[0], l)
         if it.op == "iter_mut":
@@ -402,6 +405,14 @@ class Models(object):
         return make_opt(tm.any_(it, l), mk("find_val", it, l))
 
     def find_in(self, coll, l):
+        k = (coll.id, l.id)
+        r = self._find_memo.get(k)
+        if r is None:
+            r = self._find_in(coll, l)
+            self._find_memo[k] = r
+        return r
+
+    def _find_in(self, coll, l):
         """First element of a collection term satisfying l (pushes and joins made explicit)."""
         if coll.op == "push":
             inner = self.find_in(coll.a[0], l)
@@ -420,7 +431,7 @@ class Models(object):
         return make_opt(tm.any_(it, l), mk("find_val", it, l))
 
     def it_position(self, ev, it, f):
-        l, _ = ev.reify(f, 1)
+        l, _ = ev.reify(f, 1, elem_of=it)
         return make_opt(tm.any_(it, l), mk("position_val", it, l))
 
     def it_next(self, ev, itref):
@@ -441,6 +452,14 @@ class Models(object):
                         rest.extend([g, x])
                     ev.write(pl, mk("eiter", *rest))
                 return tm.some(items[0][1])
+            if pl is None or True:
+                # first present element (the iterator cell keeps a conservative remainder)
+                r = tm.NONE
+                for g, x in reversed(items):
+                    r = tm.ite(g, tm.some(x), r)
+                if pl is not None:
+                    ev.write(pl, mk("skip", it, tm.ONE))
+                return r
         if pl is not None:
             ev.write(pl, mk("skip", it, tm.ONE))
         return make_opt(mk("nonempty", it), mk("first_val", it))
